@@ -62,6 +62,8 @@ pub static mut REQUEST_OK: bool = true;
 /// is given, then behaves as the scenario says: writes n reply messages, then returns Ok,
 /// returns Err, or asks for an upgrade.
 pub fn dispatch_model(_svc: &VarlinkService, iface: &str, call: &mut Call) -> crate::Result<()> {
+    // a malformed message must not be dispatched (see stubs::memrchr_guarded)
+    assert!(!unsafe { stubs::PARSE_FAILED }, "P:c06.malformed_message_is_not_dispatched");
     let m = unsafe { SCEN.msgs[CUR_ORD as usize] };
     unsafe {
         DISPATCHED += 1;
@@ -110,6 +112,8 @@ pub fn inf_model<'a>(call: &mut Call<'a>, arg: Option<String>) -> crate::Result<
 where
     'a: 'a, // early-bound, like the impl's lifetime parameter
 {
+    // a malformed message must not be answered (see stubs::memrchr_guarded)
+    assert!(!unsafe { stubs::PARSE_FAILED }, "P:c06.malformed_message_is_not_answered");
     let m = unsafe { SCEN.msgs[CUR_ORD as usize] };
     let ok = match &arg {
         Some(a) => super::tagser::key_eq(a.as_str(), method_of(m.target)),
@@ -275,15 +279,15 @@ const M3: [u8; 6] = [b'm', 0, b'm', 0, b'm', 0];
 handle_harness!(c01_k1_d, 8, 1, M1, b"t", NOFAIL, NOFLAGS, [D, D, D]);
 handle_harness!(c01_k1_n, 8, 1, M1, b"t", NOFAIL, NOFLAGS, [NO, D, D]);
 handle_harness!(c01_k1_e, 8, 1, M1, b"t", NOFAIL, NOFLAGS, [E, D, D]);
-handle_harness!(c01_k1_d_f0, 8, 1, M1, b"t", 0, NOFLAGS, [D, D, D]);
+handle_harness!(c06_k1_malformed, 8, 1, M1, b"t", 0, NOFLAGS, [D, D, D]);
 handle_harness!(c01_k1_d_flags, 8, 1, M1, b"t", NOFAIL, SOMEFLAGS, [D, D, D]);
 handle_harness!(c01_k2_dd, 8, 2, M2, b"t", NOFAIL, NOFLAGS, [D, D, D]);
 handle_harness!(c01_k2_nd, 8, 2, M2, b"t", NOFAIL, NOFLAGS, [NO, D, D]);
 handle_harness!(c01_k2_dn, 8, 2, M2, b"t", NOFAIL, NOFLAGS, [D, NO, D]);
 handle_harness!(c01_k2_ed, 8, 2, M2, b"t", NOFAIL, NOFLAGS, [E, D, D]);
 handle_harness!(c01_k2_nn, 8, 2, M2, b"t", NOFAIL, NOFLAGS, [NO, NO, D]);
-handle_harness!(c01_k2_dd_f1, 8, 2, M2, b"t", 1, NOFLAGS, [D, D, D]);
-handle_harness!(c01_k2_dd_f0, 8, 2, M2, b"t", 0, NOFLAGS, [D, D, D]);
+handle_harness!(c06_k2_second_malformed, 8, 2, M2, b"t", 1, NOFLAGS, [D, D, D]);
+handle_harness!(c06_k2_first_malformed, 8, 2, M2, b"t", 0, NOFLAGS, [D, D, D]);
 handle_harness!(c01_k3_ddd, 8, 3, M3, b"", NOFAIL, NOFLAGS, [D, D, D]);
 handle_harness!(c01_k3_dnd, 8, 3, M3, b"", NOFAIL, NOFLAGS, [D, NO, D]);
 handle_harness!(c03_split_leading_dot, 8, 1, M1, b"t", NOFAIL, NOFLAGS, [T_LEADING_DOT, D, D]);
